@@ -154,9 +154,12 @@ def run(ctx):
         is_closed = (len(ubs) == 0 and m == 0)
         if is_closed:
             defs[gclosed] = ("goal", pg.goal_model(it.goal, st))
-        exprs.append(([pn, qn] + ([gclosed] if is_closed else []),
-                      "((if f14_class %s %s then 1 else 0) + (if f1_class %s %s then 2 else 0) + %s)%%N"
-                      % (pn, qn, pn, qn, ("(if f7q_class %d %s %s then 4 else 0)" % (FUEL, pn, gclosed)) if is_closed else "0")))
+            f7 = "(if f7q_class %d %s %s then 4 else 0)" % (FUEL, pn, gclosed)
+            names = [pn, qn, gclosed]
+        else:
+            f7 = "(if f7q_query %d %s %s %s then 4 else 0)" % (FUEL, pn, qn, cn)
+            names = [pn, qn, cn]
+        exprs.append((names, "((if f14_class %s %s then 1 else 0) + (if f1_class %s %s then 2 else 0) + %s)%%N" % (pn, qn, pn, qn, f7)))
         meta.append((k, None, "frag"))
         meta.append((k, None, "class"))
         for sname in ("slg", "rec"):
